@@ -521,3 +521,31 @@ M("c18-rev-table-entry", "C18", "src/common.py", 'CANONICAL_REV_SITES = {("CT", 
 M("c18-silent-window-helper", "C18", AIO, "                region_start = min(gene_info.all_read_region_start, assignment.exons[0][0])\n                region_end = max(gene_info.all_read_region_end, assignment.exons[-1][1])\n                if region_start < gene_info.all_read_region_start or region_end > gene_info.all_read_region_end:\n                    gene_info.set_reference_sequence(region_start, region_end, self.chr_record)",
   "                new_start = min(gene_info.all_read_region_start, assignment.exons[0][0])\n                new_end = max(gene_info.all_read_region_end, assignment.exons[-1][1])\n                if (new_start, new_end) != (gene_info.all_read_region_start, gene_info.all_read_region_end):\n                    gene_info.set_reference_sequence(new_start, new_end, self.chr_record)",
   expect="silent", note="same widening, locals renamed and guard rewritten")
+
+# ---------------------------------------------------------------- C11 / X1
+PVM = "src/polya_verification.py"
+M("x1-revert-extra-right", "C11", LRA2, "            extra_right = 1 if read_region[1] - self.params.delta > transcript_end else 0", "            extra_right = 1 if read_region[0] - self.params.delta > transcript_end else 0",
+  rule="X1", note="revert: right-side penalty tests the read start")
+M("x1-revert-thread-starts", "C11", GMC, "        elif not trusted and start >= leftmost_start[1] - self.params.apa_delta and \\\n", "        elif not trusted and start >= leftmost_start[1] and \\\n",
+  rule="X1", note="revert: thread_starts without the apa_delta tolerance")
+M("x1-one-side-le", "C11", PVM, "            if exon[1] < polyt_pos:\n                continue", "            if exon[1] <= polyt_pos:\n                continue", rule="X1",
+  note="< became <= in shift_polyt only")
+M("x1-index-slip", "C11", PVM, "    return read_exons[exon_count][0] - dist_to_polya", "    return read_exons[exon_count][1] - dist_to_polya", rule="X1", note="[0]/[1] slip on the polyT side")
+M("x1-tolerance-dropped", "C11", PVM, "            if len_to_polyt <= 0 or \\\n                    (len_to_polyt <= self.params.max_fake_terminal_exon_len and\n                    2 * len_to_polyt < internal_polyt_pos - exon[0]):",
+  "            if len_to_polyt <= 0 or \\\n                    (2 * len_to_polyt < internal_polyt_pos - exon[0]):", rule="X1", note="length cap dropped on the polyT side only")
+M("x1-event-side", "C11", PVM, "                matching_events.append(MatchEvent(MatchEventSubtype.terminal_exon_misalignment_left, (i, i)))", "                matching_events.append(MatchEvent(MatchEventSubtype.terminal_exon_misalignment_right, (i, i)))",
+  rule="X1", note="polyT side emits the right-side event")
+M("x1-elongation-asym", "C11", LRA2, "                elif extra_right > self.params.delta:\n                    events.append(MatchEvent(MatchEventSubtype.exon_elongation_right, event_info=extra_right))",
+  "                elif extra_right >= self.params.delta:\n                    events.append(MatchEvent(MatchEventSubtype.exon_elongation_right, event_info=extra_right))", rule="X1",
+  note="right elongation threshold inclusive, left exclusive")
+M("x1-interval-literal", "C11", LRP, "        mapped_region = (sorted_blocks[0][1] + self.delta, sorted_blocks[-1][0] - self.delta)", "        mapped_region = (sorted_blocks[0][1] + self.delta, sorted_blocks[-1][1] - self.delta)",
+  rule="X1", note="exon-skipping window not mirror symmetric")
+M("x1-silent-both-sides", "C11", PVM, None, None, expect="silent", note="the same edit on both sides (<= on both)",
+  edits=[(PVM, "        if exon[0] > polya_pos:\n            continue", "        if exon[0] >= polya_pos:\n            continue"),
+         (PVM, "            if exon[1] < polyt_pos:\n                continue", "            if exon[1] <= polyt_pos:\n                continue")])
+M("x1-silent-rename-flip", "C11", PVM, None, None, expect="silent", note="local renamed and comparison written the other way round",
+  edits=[(PVM, "    dist_to_polya = 0\n    for i in range(exon_count):\n        exon = read_exons[i]\n        if exon[1] < polyt_pos:\n            continue\n        elif dist_to_polya == 0:\n            # no exons counted yet\n            dist_to_polya += exon[1] - polyt_pos\n        else:\n            dist_to_polya += interval_len(exon)\n    return read_exons[exon_count][0] - dist_to_polya",
+          "    dist_to_polyt = 0\n    for i in range(exon_count):\n        exon = read_exons[i]\n        if polyt_pos > exon[1]:\n            continue\n        elif dist_to_polyt == 0:\n            # no exons counted yet\n            dist_to_polyt += exon[1] - polyt_pos\n        else:\n            dist_to_polyt += interval_len(exon)\n    return read_exons[exon_count][0] - dist_to_polyt")])
+M("x1-silent-reorder", "C11", PVM, "        fake_terminal_exon_count = 0\n        terminal_exon_misaligned = 0\n\n        for i, event in enumerate(matching_events):\n            if event.event_type in [MatchEventSubtype.major_exon_elongation_left,",
+  "        terminal_exon_misaligned = 0\n        fake_terminal_exon_count = 0\n\n        for i, event in enumerate(matching_events):\n            if event.event_type in [MatchEventSubtype.major_exon_elongation_left,", expect="silent",
+  note="independent statements reordered on one side")
